@@ -9,6 +9,14 @@ ALL = ["C%02d" % i for i in range(1, 21)]
 
 # id -> dict(level, technique, text, note, design_ref, engine)
 CHECKS = {
+    "C12": dict(
+        level="exploration",
+        engine="E1-enum",
+        technique="bounded-exhaustive enumeration of programs and of a registry-generated site table x 4 undefined behaviours, with a monotonicity relation between the four runs and a matrix oracle on direct sites",
+        text="Every program of the depth-2 generator space under 3 contexts (two with missing keys), a site table generated from the built-in registry (each of the 49 filters x 17 argument forms, 42 tests x 8, 4 functions x 6, 62 operator/statement forms, each with an undefined in every argument position) and 5 multi-template families are rendered under Strict, SemiStrict, Lenient and Chainable; whenever a mode succeeds every weaker mode must succeed with the identical output. 22 direct syntactic sites x 4 undefined spellings are compared with the documented matrix (print/iterate fail under Strict+SemiStrict, truth tests only under Strict, attribute/item access everywhere but Chainable, is defined / is undefined / default never), including the error kind.",
+        note="The relation is between whole renders; the matrix oracle is limited to sites where the undefined operand is used directly.",
+        design_ref="2/C12",
+    ),
     "C19": dict(
         level="fault_enumeration",
         engine="E6-fault",
